@@ -2,7 +2,7 @@
    Part 1: an indirect object written by write_indirect_object parses back to its normal form,
    whatever follows it (per-object round trip, streams included). *)
 From LV Require Import Base.Bytes Base.Sx Model.Obj Model.Writer Model.Parser Model.Save Model.Xref Model.Loader
-  Model.Utf Gen.Lex Proofs.LexProofs Proofs.RealProofs Proofs.ObjectRtProofs Spec.SaveSpec.
+  Model.Utf Gen.Lex Proofs.LexProofs Proofs.RealProofs Proofs.ObjectRtProofs Proofs.SaveProofs Spec.SaveSpec.
 
 Local Open Scope N_scope.
 
